@@ -110,3 +110,29 @@ Example no_stale_tmp_needed :
    C02.rebase_exact cfg0 fs_stale (wo_fs (v_after v)) nb_ [], C02.step_spec cfg0 w v)
   = (true, false, ROk, false, false).
 Proof. vm_compute. reflexivity. Qed.
+
+(* ---- packaged for Properties/C02.v *)
+Lemma forest_preserved_refuted : exists cfg w e cmd um,
+  (cfg_ok cfg && fs_ok cfg (wo_fs w) && kernel_wf w && names_distinct cfg w && paths_distinct w
+   && C02.forest_ok cfg (wo_fs w)) = true /\
+  e_pretend e = false /\ e_fault e = NoFault /\
+  C02.forest_ok cfg (wo_fs (v_after (view_of_model cfg w e cmd um))) = false /\
+  C02.step_spec cfg w (view_of_model cfg w e cmd um) = false.
+Proof.
+  exists cfg0, w_blocked, env_plain, (CRename na nc), [].
+  split; [vm_compute; reflexivity|]. split; [reflexivity|]. split; [reflexivity|].
+  split; vm_compute; reflexivity.
+Qed.
+
+Lemma rebase_exact_refuted : exists cfg w e a b0,
+  (cfg_ok cfg && fs_ok cfg (wo_fs w) && paths_distinct w && kernel_wf w && names_distinct cfg w
+   && C02.forest_ok cfg (wo_fs w)) = true /\
+  e_pretend e = false /\ e_fault e = NoFault /\
+  v_res (view_of_model cfg w e (CRebase a b0) []) = ROk /\
+  C02.rebase_exact cfg (wo_fs w) (wo_fs (v_after (view_of_model cfg w e (CRebase a b0) []))) a b0 = false.
+Proof.
+  exists cfg0, (MkWO fs_stale ks0), env_plain, nb_, [].
+  split; [vm_compute; reflexivity|]. split; [reflexivity|]. split; [reflexivity|].
+  split; vm_compute; reflexivity.
+Qed.
+
